@@ -24,11 +24,11 @@ package soymsg
 //@   at call ast.Node.String#0 after set curS = res
 //@   at call ast.Node.String#1 set othN = arg0
 //@   at call ast.Node.String#1 after set othS = res
-//@   at call mapupdate#1 assert[named-alike-only-if-identical-source-text;C03] key == curN && val == othN && curS == othS
+//@   at call mapupdate#1 assert[named-alike-only-if-identical-source-text;C03,C10] key == curN && val == othN && curS == othS
 //@   at call mapupdate#3 assert[unsuffixed-name-not-already-taken;C10] !haskey(m, key)
 //@   at call mapupdate#4 assert[suffixed-name-not-already-taken;C10] !haskey(m, key)
-//@   at call mapupdate#5 assert[representative-gets-the-name-it-is-filed-under;C03] haskey(nameToRepNodes, val) && nameToRepNodes[val] == key
-//@   at call mapupdate#6 assert[equivalent-node-gets-its-representative's-name;C03] haskey(equivNodeToRepNodes, key) && (haskey(m, equivNodeToRepNodes[key]) ==> val == m[equivNodeToRepNodes[key]])
+//@   at call mapupdate#5 assert[representative-gets-the-name-it-is-filed-under;C03,C10] haskey(nameToRepNodes, val) && nameToRepNodes[val] == key
+//@   at call mapupdate#6 assert[equivalent-node-gets-its-representative's-name;C03,C10] haskey(equivNodeToRepNodes, key) && (haskey(m, equivNodeToRepNodes[key]) ==> val == m[equivNodeToRepNodes[key]])
 //@   loop 0
 //@     noterm
 //@     invariant[base-names-are-the-map's-keys] forall(j, 0, len(baseNames), haskey(baseNameToRepNodes, baseNames[j]))
